@@ -751,6 +751,8 @@ func evmKeeperFacts(keeper, vm, utils *packages.Package) {
 		fail("x/evm packages not loaded")
 		return
 	}
+	// EstimateGas: how the search bound `hi` and the remembered cap `gasCap` are assigned
+	facts["estimateGasAssigns"] = assignOrder(findMethod(keeper, "Keeper", "EstimateGas"), map[string]bool{"hi": true, "gasCap": true})
 	// refundGas
 	rg := findMethod(keeper, "StateTransition", "refundGas")
 	facts["refundGasCalls"] = callsIn(rg)
@@ -832,6 +834,51 @@ func feemarketFacts(p *packages.Package) {
 	facts["calculateBaseFeeMaxGasConds"] = conds
 	// every guard of CalculateBaseFee, in source order, rendered completely
 	facts["calculateBaseFeeGuards"] = ifConds(findMethod(p, "Keeper", "CalculateBaseFee"))
+}
+
+// assignOrder lists, in source order, the assignments to the given variables inside a function (not inside
+// function literals), each annotated with the conditions it sits under.
+func assignOrder(fd *ast.FuncDecl, vars map[string]bool) []string {
+	var out []string
+	if fd == nil || fd.Body == nil {
+		return out
+	}
+	var walk func(n ast.Node, under string)
+	walk = func(n ast.Node, under string) {
+		ast.Inspect(n, func(x ast.Node) bool {
+			switch t := x.(type) {
+			case *ast.FuncLit:
+				return false
+			case *ast.IfStmt:
+				if t.Init != nil {
+					walk(t.Init, under)
+				}
+				walk(t.Body, under+"@if("+exprFull(t.Cond)+")")
+				if t.Else != nil {
+					walk(t.Else, under+"@else("+exprFull(t.Cond)+")")
+				}
+				return false
+			case *ast.AssignStmt:
+				hit := false
+				var lhs []string
+				for _, l := range t.Lhs {
+					nm := exprFull(l)
+					lhs = append(lhs, nm)
+					hit = hit || vars[nm]
+				}
+				if hit {
+					var rhs []string
+					for _, r := range t.Rhs {
+						rhs = append(rhs, exprFull(r))
+					}
+					out = append(out, strings.Join(lhs, ",")+t.Tok.String()+strings.Join(rhs, ",")+under)
+				}
+			}
+			return true
+		})
+	}
+	walk(fd.Body, "")
+	return out
 }
 
 func chainConfigFacts(p *packages.Package) {
